@@ -78,6 +78,46 @@ struct Mon {
             if (&*w != &*s.position(idx) || w.operator->() != &*s.position(idx)) { bad(std::string("sequence:walk:after-") + name + ":" + owner, std::string("after a ") + name + " of an iterator that had been dereferenced, it does not designate the element at its new index"); break; }
          }
       }
+      // The standard iterator algorithms, which choose their implementation by the iterator's declared category (single steps for a
+      // bidirectional iterator, one jump for a random-access one), forwards and through std::reverse_iterator: a jump of k lands
+      // where k single steps land.  Whatever arithmetic the iterator itself offers (+=, -=, +, -, [], difference, <) is judged the
+      // same way when it exists.
+      if (n >= 1) {
+         using It = decltype(s.begin());
+         auto at = [&](std::size_t i) { return &*s.position(i); };
+         const std::size_t ks[] = { 0, 1, 2, n / 2, n - 1 };
+         for (std::size_t k : ks) {
+            if (k >= n) continue;
+            C.count("iterator_jumps");
+            if (&*std::next(s.begin(), std::ptrdiff_t(k)) != at(k)) bad(std::string("sequence:jump:next:") + owner, "std::next(begin(), k) is not position(k)");
+            if (&*std::prev(s.end(), std::ptrdiff_t(k + 1)) != at(n - 1 - k)) bad(std::string("sequence:jump:prev:") + owner, "std::prev(end(), k+1) is not position(size-1-k)");
+            { auto it = s.position(n - 1); std::advance(it, -std::ptrdiff_t(k)); if (&*it != at(n - 1 - k)) bad(std::string("sequence:jump:advance-backwards:") + owner, "std::advance(it, -k) from the last element is not position(size-1-k)"); }
+            if (std::distance(s.begin(), s.position(k)) != std::ptrdiff_t(k)) bad(std::string("sequence:jump:distance:") + owner, "distance(begin(), position(k)) != k");
+            auto rb = std::make_reverse_iterator(s.end());
+            if (&*std::next(rb, std::ptrdiff_t(k)) != at(n - 1 - k)) bad(std::string("sequence:jump:reverse-next:") + owner, "std::next(reverse begin, k) is not position(size-1-k)");
+            { auto r = rb; std::advance(r, std::ptrdiff_t(k)); auto single = rb; for (std::size_t j = 0; j < k; ++j) ++single; if (&*r != &*single) bad(std::string("sequence:jump:reverse-advance:") + owner, "a reverse iterator advanced by k is not where k single steps lead"); }
+            { auto re = std::make_reverse_iterator(s.begin()); if (&*std::prev(re, std::ptrdiff_t(k + 1)) != at(k)) bad(std::string("sequence:jump:reverse-prev:") + owner, "std::prev(reverse end, k+1) is not position(k)"); }
+            if constexpr (requires(It i, std::ptrdiff_t d) { i += d; i -= d; }) {
+               C.count("iterator_arithmetic_checks");
+               { It i = s.begin(); i += std::ptrdiff_t(k); if (&*i != at(k)) bad(std::string("sequence:arithmetic:+=:") + owner, "begin() += k is not position(k)"); }
+               { It i = s.end(); i -= std::ptrdiff_t(k + 1); if (&*i != at(n - 1 - k)) bad(std::string("sequence:arithmetic:-=:") + owner, "end() -= k+1 is not position(size-1-k)"); }
+               { It i = s.position(n - 1); i += -std::ptrdiff_t(k); if (&*i != at(n - 1 - k)) bad(std::string("sequence:arithmetic:+=negative:") + owner, "+= -k from the last element is not position(size-1-k)"); }
+               { It i = s.position(0); i -= -std::ptrdiff_t(k); if (&*i != at(k)) bad(std::string("sequence:arithmetic:-=negative:") + owner, "-= -k from the first element is not position(k)"); }
+            }
+            if constexpr (requires(It i, std::ptrdiff_t d) { i + d; i - d; }) {
+               if (&*(s.begin() + std::ptrdiff_t(k)) != at(k)) bad(std::string("sequence:arithmetic:+:") + owner, "begin() + k is not position(k)");
+               if (&*(s.end() - std::ptrdiff_t(k + 1)) != at(n - 1 - k)) bad(std::string("sequence:arithmetic:-:") + owner, "end() - (k+1) is not position(size-1-k)");
+            }
+            if constexpr (requires(It i, std::ptrdiff_t d) { i[d]; }) { if (&s.begin()[std::ptrdiff_t(k)] != at(k)) bad(std::string("sequence:arithmetic:[]:") + owner, "begin()[k] is not position(k)"); }
+            if constexpr (requires(It i, It j) { i - j; }) {
+               if ((s.position(k) - s.begin()) != std::ptrdiff_t(k) || (s.begin() - s.position(k)) != -std::ptrdiff_t(k) || (s.end() - s.begin()) != std::ptrdiff_t(n)) bad(std::string("sequence:arithmetic:difference:") + owner, "the difference of two iterators is not the difference of their positions");
+            }
+            if constexpr (requires(It i, It j) { i < j; i > j; i <= j; i >= j; }) {
+               const bool lt = s.begin() < s.position(k), gt = s.position(k) > s.begin(), le = s.begin() <= s.position(k), ge = s.position(k) >= s.begin();
+               if (lt != (k > 0) || gt != (k > 0) || !le || !ge || s.end() < s.begin() || !(s.end() > s.position(k))) bad(std::string("sequence:arithmetic:order:") + owner, "the order of two iterators is not the order of their positions");
+            }
+         }
+      }
    }
    template<class A, class B>
    void same_seq(const char* what, const Sequence<A>& a, const Sequence<B>& b)
@@ -439,7 +479,7 @@ static void body(Ctx& C)
    std::string list = "["; for (auto& k : M.kinds_seen) { if (list.size() > 1) list += ","; list += jstr(k); } C.extra("kinds_and_states", list + "]");
    C.sample(J().s("case", "Block with 3 handlers: try_block() vs handlers().size() > 0; body() vs region().body()").str());
    C.sample(J().s("case", "Linkage(\"C\") == Linkage(get_string(\"C\")) and != Linkage(\"c\")").str());
-   C.need("sequence_checks"); C.need("derived_checks"); C.need("equality_pairs"); C.need("iterator_walk_moves"); C.need("iterator_equality_checks"); C.need("iterators_compared_across_growth"); C.need("nodes_checked"); C.need("library_made_basic_specifiers", 17); C.need("library_made_basic_qualifiers", 3);
+   C.need("sequence_checks"); C.need("derived_checks"); C.need("equality_pairs"); C.need("iterator_walk_moves"); C.need("iterator_jumps"); C.need("iterator_equality_checks"); C.need("iterators_compared_across_growth"); C.need("nodes_checked"); C.need("library_made_basic_specifiers", 17); C.need("library_made_basic_qualifiers", 3);
 }
 
 int main(int argc, char** argv) { return guarded_main(argc, argv, body); }
